@@ -2,17 +2,24 @@
 import itertools
 import contracts.formatstring as F
 import contracts.memo as MEMO
+import contracts.columns as COL
 from pyvc.verify import verify
 from bounded.common import Suite, FmtStr, Chunk, fmtstr, cells
 from cwcwidth import wcwidth, wcswidth
 
 LEVEL = "exploration"
-CONTRACTS = [F.interval_overlap, F.chunk_width_body, F.width_at_offset, MEMO.width_memo]
+CONTRACTS = [F.interval_overlap, F.chunk_width_body, F.width_at_offset, MEMO.width_memo, COL.cutter, COL.run_walk]
 ASSUMPTIONS = [
     "cwcwidth.wcwidth(c) in {-1,0,1,2}; wcswidth(s, n) == sum of wcwidth over s[:n], or -1 (assumed contract of the dependency, "
     "probed in the bounded suite for the alphabet used and per code point in thorough)",
-    "the per-character cutter width_aware_slice(s, a, b) and the run walk of FmtStr.width_aware_slice are decided by the bounded "
-    "suite only (column model); deductively decided: interval_overlap, Chunk.width, FmtStr.width (memo), width_at_offset",
+    "deductively decided: interval_overlap, Chunk.width, FmtStr.width (memo), width_at_offset, the per-character cutter "
+    "width_aware_slice(s, a, b) (two loops: column prefix sums, then the cut, against the fold BCUT written from the statement) and the run "
+    "walk FmtStr.width_aware_slice(slice(a, b)), 0 <= a <= b (over the cutter's contract, ghost fold RUNCUT); int / open / negative indices "
+    "of the method are covered by the bounded suite only",
+    "fold lemma schemas used as ground instances by the run walk - BCUT(s,a,b) is empty when b <= 0 or a >= width(s); equals the "
+    "column-occupying characters of s when a <= 0 and b >= width(s); BCUT(s,a,b) == BCUT(s,max(0,a),b); RUNCUT splits at a run boundary - "
+    "need induction and are NOT proved by the solvers: validated on every run by exhaustive evaluation of the executable column model "
+    "(lemma_selftest: strings <= 5 over narrow/wide/combining, every a, b in [-3, width+3]); wcswidth additive over concatenation",
     "placement of zero-width characters next to a cut is compared up to attachment (statement is silent)",
 ]
 
@@ -149,7 +156,47 @@ def bounded(check, tier):
     s.done()
 
 
+def lemma_selftest(check, tier):
+    """the fold lemmas of contracts/columns.py, evaluated on the executable column model (exhaustive small scope)"""
+    bad = []
+    n_eval = 0
+    maxlen = 6 if tier == "thorough" else 5
+    for n in range(0, maxlen + 1):
+        for p in itertools.product([N, W, Z], repeat=n):
+            s = "".join(p)
+            w = sum(wcwidth(c) for c in s)
+            base = COL.py_basef(s)
+            for a in range(-3, w + 4):
+                for b in range(-3, w + 4):
+                    n_eval += 1
+                    c = COL.py_bcut(s, a, b)
+                    if b <= 0 and c != "":
+                        bad.append(("L1", s, a, b))
+                    if a >= w and c != "":
+                        bad.append(("L2", s, a, b))
+                    if a <= 0 and b >= w and c != base:
+                        bad.append(("L3", s, a, b))
+                    if c != COL.py_bcut(s, max(0, a), b):
+                        bad.append(("L4", s, a, b))
+            # RUNCUT splits at every run boundary, and what lies after the last requested column shows nothing
+            for i in range(n + 1):
+                f = FmtStr(Chunk(s[:i], ATTS[0]), Chunk(s[i:], ATTS[1]))
+                wi = sum(wcwidth(c) for c in s[:i])
+                for a in range(0, w + 2):
+                    for b in range(a, w + 3):
+                        n_eval += 1
+                        whole = COL.py_runcut(f, a, b)
+                        first = [(c, COL.S.norm_atts(ATTS[0])) for c in COL.py_bcut(s[:i], a, b)]
+                        rest = [(c, COL.S.norm_atts(ATTS[1])) for c in COL.py_bcut(s[i:], a - wi, b - wi)]
+                        if whole != first + rest or (b <= wi and rest):
+                            bad.append(("split", s, i, a, b))
+    if bad:
+        check.engine_error(f"column fold lemma fails on the executable model: {bad[:3]}")
+    check.note(f"column fold lemma schemas validated on {n_eval} (string, range) cases of the executable model")
+
+
 def run(check, tier, seed):
+    lemma_selftest(check, tier)
     for c in CONTRACTS:
         verify(c, tier, check)
     bounded(check, tier)
